@@ -45,9 +45,9 @@ class Outcome(dict):
     extra        free dict of counters that the driver sums up
     """
 
-    def __init__(self, key, nontrivial=True, outcome='', transitions=1, compared=1, violations=None, extra=None):
+    def __init__(self, key, nontrivial=True, outcome='', transitions=1, compared=1, violations=None, extra=None, nt_keys=None):
         super().__init__(key=key, nontrivial=bool(nontrivial), outcome=str(outcome), transitions=int(transitions),
-                         compared=int(compared), violations=violations or [], extra=extra or {})
+                         compared=int(compared), violations=violations or [], extra=extra or {}, nt_keys=nt_keys)
 
 
 class HarnessError(Exception):
@@ -94,6 +94,41 @@ def _h(s):
     return hashlib.blake2b(s.encode(), digest_size=8).digest()
 
 
+def _parallel(modname, nproc, chunks, harness):
+    """ordered-agnostic parallel map over chunks with a bounded window; a dying worker (segfault, OOM kill) is a harness
+    error attributed to the chunks in flight, never a hang"""
+    import concurrent.futures as cf
+    from concurrent.futures.process import BrokenProcessPool
+    ctx = mp.get_context('spawn')
+    ex = cf.ProcessPoolExecutor(nproc, mp_context=ctx, initializer=_init_worker, initargs=(modname,))
+    pending = {}
+    it = iter(chunks)
+    exhausted = False
+    try:
+        while True:
+            while not exhausted and len(pending) < 4 * nproc:
+                try:
+                    c = next(it)
+                except StopIteration:
+                    exhausted = True
+                    break
+                pending[ex.submit(_run_chunk, c)] = c
+            if not pending:
+                break
+            done, _ = cf.wait(list(pending), return_when=cf.FIRST_COMPLETED)
+            for f in done:
+                c = pending.pop(f)
+                try:
+                    yield f.result()
+                except BrokenProcessPool:
+                    harness.append((c[0][0], c[0][1], 'a worker process died (crash or out of memory) while this chunk was in flight'))
+                    for g, cc in list(pending.items()):
+                        pending.pop(g)
+                    return
+    finally:
+        ex.shutdown(wait=False, cancel_futures=True)
+
+
 # ------------------------------------------------------------------------------------------------ known findings
 
 def load_known(prop):
@@ -130,28 +165,28 @@ def run_check(modname, tier, seed, limit=None, only_cls=None):
     chunk = getattr(mod, 'CHUNK', 64)
     nproc = min(NPROC, getattr(mod, 'MAX_PROCS', NPROC))
 
-    ctx = mp.get_context('spawn')
-    with ctx.Pool(nproc, initializer=_init_worker, initargs=(modname,)) as pool:
-        for res in pool.imap_unordered(_run_chunk, _chunks(gen, chunk)):
-            for idx, case, r, err in res:
-                evaluations += 1
-                if err is not None:
-                    harness.append((idx, case, err))
-                    continue
-                keys = r['key'] if isinstance(r['key'], list) else [r['key']]
-                hk = [_h(k) for k in keys]
-                states.update(hk)
-                if r['nontrivial']:
-                    nontrivial.update(hk)
-                outcomes[r['outcome']] = outcomes.get(r['outcome'], 0) + 1
-                transitions += r['transitions']
-                compared += r['compared']
-                for k, v in r['extra'].items():
-                    extra[k] = extra.get(k, 0) + v
-                if idx < 3 or (len(samples) < 6 and idx % 997 == (seed % 997)):
-                    samples.append({'case': case, 'outcome': r['outcome']})
-                for v in r['violations']:
-                    viol.setdefault(v['cls'], []).append((idx, case, v.get('detail', '')))
+    for res in _parallel(modname, nproc, _chunks(gen, chunk), harness):
+        for idx, case, r, err in res:
+            evaluations += 1
+            if err is not None:
+                harness.append((idx, case, err))
+                continue
+            keys = r['key'] if isinstance(r['key'], list) else [r['key']]
+            hk = [_h(k) for k in keys]
+            states.update(hk)
+            if r.get('nt_keys') is not None:
+                nontrivial.update(_h(k) for k in r['nt_keys'])
+            elif r['nontrivial']:
+                nontrivial.update(hk)
+            outcomes[r['outcome']] = outcomes.get(r['outcome'], 0) + 1
+            transitions += r['transitions']
+            compared += r['compared']
+            for k, v in r['extra'].items():
+                extra[k] = extra.get(k, 0) + v
+            if idx < 3 or (len(samples) < 6 and idx % 997 == (seed % 997)):
+                samples.append({'case': case, 'outcome': r['outcome']})
+            for v in r['violations']:
+                viol.setdefault(v['cls'], []).append((idx, case, v.get('detail', '')))
 
     if harness:
         harness.sort(key=lambda t: t[0])
